@@ -123,6 +123,23 @@ C07_FreshTimers ==       \* timers registered by an earlier incarnation no longe
 C07 == C07_IncMonotone /\ C07_Identity /\ C07_NoneIgnores /\ C07_FreshTimers /\ C01_RealTimeFIFO /\ C01_AtMostOnce
 
 -----------------------------------------------------------------------------
+(* C10 timers respect their period / delay, die with the actor, never prolong it *)
+FiresOf(i) == {f \in hst.fires : f[1] = i}
+C10_Period ==            \* the k-th firing is at least k periods after the first sleep began; consecutive ones a period apart
+  \A i \in DOMAIN tmr :
+    /\ \A f \in FiresOf(i) : f[3] >= tmr[i].t0 + f[2] * tmr[i].period
+    /\ \A f, g \in FiresOf(i) : g[2] = f[2] + 1 => g[3] >= f[3] + tmr[i].period
+C10_Once ==              \* delayed_send / delayed_exec fire exactly once (at most once in every prefix)
+  \A i \in DOMAIN tmr : tmr[i].kind \in {"delayed_send", "delayed_exec"} =>
+     (tmr[i].k <= 1 /\ (tmr[i].k = 1 => tmr[i].st \in {"flush", "ended", "aborted"}))
+C10_DieWithActor ==      \* nothing fires into a terminated actor, and no tick of it is handled afterwards
+  \A i \in DOMAIN tmr : Terminated(tmr[i].a) => tmr[i].st \in {"aborted", "ended"}
+C10_TicksAreFires ==     \* every handled tick was fired by its timer (no invented / duplicated ticks)
+  \A a \in Used : \A j \in 1..Len(hst.hb[a]) :
+     LET m == hst.hb[a][j].m IN m[1] \in DOMAIN tmr => (<<m[1], m[2], TRUE>> \in {<<f[1], f[2], f[4]>> : f \in hst.fires} /\ tmr[m[1]].a = a)
+C10 == C10_Period /\ C10_Once /\ C10_DieWithActor /\ C10_TicksAreFires /\ C07_FreshTimers /\ C01_AtMostOnce
+
+-----------------------------------------------------------------------------
 (* C11 handler timeouts abandon exactly the invocations that exceed the limit *)
 C11_OnlyLate ==          \* abandoned only at or after the limit, never without a configured timeout
   \A a \in Used : /\ ((act[a].tmo = 0 \/ act[a].stream) => (\A y \in hst.abt : y[1] # a))
